@@ -48,6 +48,11 @@ pub struct Case {
     /// the script is stored under a file name that is not valid UTF-8
     #[serde(default)]
     pub odd_name: bool,
+    /// nobody reads the executable's standard output: its write end is a pipe whose reader is gone (F16). Only for
+    /// the forms that run no script (lint, --version, --help): what a script's own output commands do then is not
+    /// this property's matter
+    #[serde(default)]
+    pub closed_stdout: bool,
 }
 
 const SCRIPT: &str = "run/script.ds";
@@ -105,7 +110,7 @@ fn gen_line(rng: &mut Rng, upper: bool, depth: &mut u32) -> String {
                 "echo no block".to_string()
             }
         }
-        15 => format!("exit {}", rng.pick(&["0", "1", "3", "-2", "abc", "", "255", "256", "257", "512", "-256", "65536", "2147483647"])),
+        15 => format!("exit {}", rng.pick(&["0", "1", "3", "-2", "abc", "", "255", "256", "257", "512", "-256", "65536", "2147483647", "2147483648", "-2147483649", "4294967296", "99999999999", "+7", "00"])),
         16 => format!("unknown_command_{} a", rng.below(3)),
         17 => format!("trigger_error {}", q(word(rng))),
         18 => format!("exit_on_error {}", rng.pick(&["true", "false"])),
@@ -197,7 +202,8 @@ fn gen_case(rng: &mut Rng) -> Case {
         None
     };
     let odd_name = rng.chance(1, 30);
-    Case { entropy: rng.next_u64(), form, lines, fault, included, odd_name }
+    let closed_stdout = matches!(form, Form::LintShort | Form::LintLong | Form::Version | Form::Help | Form::HelpShort) && rng.chance(1, 6);
+    Case { entropy: rng.next_u64(), form, lines, fault, included, odd_name, closed_stdout }
 }
 
 /// the reference run's `exec`: what `/bin/echo words...` without an output variable adds to the inherited stdout, written
@@ -299,7 +305,20 @@ fn run_case(case: &Case, env: &WorkerEnv) -> Verdict {
         };
     }
     // ---- the executable: clean environment, private cwd, no stdin
-    let output = Command::new(&duck).args(&args).env_clear().current_dir(&env.jail_root).stdin(Stdio::null()).stdout(Stdio::piped()).stderr(Stdio::piped()).output();
+    let closed_stdout = case.closed_stdout && matches!(case.form, Form::LintShort | Form::LintLong | Form::Version | Form::Help | Form::HelpShort);
+    let output = if closed_stdout {
+        // a pipe whose read end is closed before the child starts: every write to it fails with EPIPE
+        let mut fds = [0i32; 2];
+        if unsafe { libc::pipe(fds.as_mut_ptr()) } != 0 {
+            return Verdict::Inconclusive { reason: "cannot create a pipe".to_string() };
+        }
+        unsafe { libc::close(fds[0]) };
+        let write_end = unsafe { <Stdio as std::os::unix::io::FromRawFd>::from_raw_fd(fds[1]) };
+        sim::with_core(|c| c.fire("F16", "nobody reads the executable's standard output (EPIPE on every write)"));
+        Command::new(&duck).args(&args).env_clear().current_dir(&env.jail_root).stdin(Stdio::null()).stdout(write_end).stderr(Stdio::piped()).output()
+    } else {
+        Command::new(&duck).args(&args).env_clear().current_dir(&env.jail_root).stdin(Stdio::null()).stdout(Stdio::piped()).stderr(Stdio::piped()).output()
+    };
     let output = match output {
         Ok(o) => o,
         Err(e) => return Verdict::Inconclusive { reason: format!("cannot execute duck: {}", e) },
@@ -314,6 +333,14 @@ fn run_case(case: &Case, env: &WorkerEnv) -> Verdict {
         return Verdict::Fail { class: "cli-killed-by-signal".to_string(), detail: format!("duck {:?} was killed by a signal; stderr: {}", args, String::from_utf8_lossy(&output.stderr)) };
     }
     let status = status.unwrap();
+    if closed_stdout && (status == 101 || String::from_utf8_lossy(&output.stderr).contains("panicked")) {
+        let _ = std::fs::remove_dir_all("run");
+        return Verdict::Fail { class: "cli-panicked".to_string(), detail: format!("duck {:?} with nobody reading its standard output ended with status {}; stderr: {}", args, status, String::from_utf8_lossy(&output.stderr).lines().next().unwrap_or("")) };
+    }
+    if closed_stdout && matches!(case.form, Form::Version | Form::Help | Form::HelpShort) {
+        let _ = std::fs::remove_dir_all("run");
+        return if status == 0 { Verdict::Pass } else { Verdict::Fail { class: "exit-status".to_string(), detail: format!("duck {:?} with nobody reading its standard output exited with {}", args, status) } };
+    }
 
     // ---- the library, in-process, on the same directory
     let expected: (bool, String) = match case.form {
@@ -388,6 +415,18 @@ fn run_case(case: &Case, env: &WorkerEnv) -> Verdict {
                 }
             }
             let printed = format!("{}{}", pre, String::from_utf8_lossy(&out.contents()));
+            // "failing by non-zero exit": a script whose first line asks to exit with a non-zero integer fails, however
+            // large the integer (an independent rule: here the library is the party under test)
+            if let (Ok(_), Some(first)) = (&r, case.lines.first()) {
+                if let Some(v) = first.strip_prefix("exit ") {
+                    let v = v.trim();
+                    let digits = v.strip_prefix('-').unwrap_or(v);
+                    if case.fault.is_none() && !digits.is_empty() && digits.chars().all(|c| c.is_ascii_digit()) && digits.chars().any(|c| c != '0') {
+                        let _ = std::fs::remove_dir_all("run");
+                        return Verdict::Fail { class: "non-zero-exit-reported-as-success".to_string(), detail: format!("the script starts with {:?} and the library run succeeded (duck exited with {})", first, status) };
+                    }
+                }
+            }
             match r {
                 Ok(_) => {
                     sim::with_core(|c| c.probe("library-ok"));
@@ -409,6 +448,10 @@ fn run_case(case: &Case, env: &WorkerEnv) -> Verdict {
     let (ok, want_stdout) = expected;
     if ok != (status == 0) {
         return Verdict::Fail { class: "exit-status".to_string(), detail: format!("duck {:?} exited with {}, the library says {}; stdout {:?}", args, status, if ok { "success" } else { "failure" }, stdout) };
+    }
+    if closed_stdout {
+        // the status was the whole answer
+        return Verdict::Pass;
     }
     if !ok {
         // (after a `print` without a line break the message follows on the same line)
@@ -499,6 +542,11 @@ impl Prop for C20 {
         if case.fault.is_some() {
             let mut c = case.clone();
             c.fault = None;
+            out.push(c);
+        }
+        if case.closed_stdout {
+            let mut c = case.clone();
+            c.closed_stdout = false;
             out.push(c);
         }
         for i in (0..case.lines.len()).rev() {
